@@ -26,6 +26,11 @@ type gop struct {
 	Parts map[string]int
 	ID    string
 	Ms    int
+	// rebuild only: the timeout recorded in the saved state (HasSavedTO false = the configured one). A state
+	// saved under another configuration, or without the field, must not change the gate's
+	// timing: the configured timeout is the one the statement speaks of.
+	HasSavedTO bool
+	SavedTO    int
 }
 
 func (o gop) String() string {
@@ -36,6 +41,10 @@ func (o gop) String() string {
 		return "ready(" + o.ID + ")"
 	case "pause", "wait":
 		return fmt.Sprintf("%s(%dms)", o.Kind, o.Ms)
+	case "rebuild":
+		if o.HasSavedTO {
+			return fmt.Sprintf("rebuild(saved timeout %d)", o.SavedTO)
+		}
 	}
 	return o.Kind
 }
@@ -143,6 +152,9 @@ func execute(sc scenario) result {
 				cp := *p
 				saved.Participants[id] = &cp
 			}
+			if o.HasSavedTO {
+				saved.Timeout = o.SavedTO
+			}
 			mu.Lock()
 			gen++
 			g := gen
@@ -190,6 +202,7 @@ type verdict struct{ sig, msg string }
 func judge(sc scenario, res result, labels map[string]bool) *verdict {
 	timeout := time.Duration(sc.Timeout) * time.Second
 	margin := 1500 * time.Millisecond
+	var otherTOFrom time.Time // a rebuild from a state that carries another timeout than the configuration
 	// split into set-up lifetimes
 	type life struct {
 		gen       int // how many earlier set-ups used the same game count
@@ -229,6 +242,10 @@ func judge(sc scenario, res result, labels map[string]bool) *verdict {
 				cur = nl
 				lives = append(lives, nl)
 				labels["rebuild"] = true
+			}
+			if r.Op.HasSavedTO && r.Op.SavedTO != sc.Timeout {
+				labels["rebuild_saved_timeout_differs"] = true
+				otherTOFrom = r.T0
 			}
 		case "ready":
 			if cur == nil {
@@ -372,6 +389,9 @@ func judge(sc scenario, res result, labels map[string]bool) *verdict {
 				labels["all_ready_fire"] = true
 			} else {
 				labels["timeout_fire"] = true
+				if !otherTOFrom.IsZero() && !at.rebuilt && at.start.After(otherTOFrom) {
+					labels["timeout_fire_of_setup_after_rebuild_with_other_saved_timeout"] = true
+				}
 			}
 			if len(f.Parts) != n {
 				return &verdict{"C09.report-participants", fmt.Sprintf("set-up %d (%s) reported participants %v", gc, fmtParts(first.parts), f.Parts)}
@@ -418,6 +438,7 @@ func genScenario(ch choose.Chooser, withWaits bool) scenario {
 	}
 	gc := 0
 	prevComplete := false
+	otherTO := false
 	nSetups := ch.Int("setups", 1, 4)
 	for s := 0; s < nSetups; s++ {
 		if s > 0 && prevComplete && choose.Chance(ch, "samegc", 12) {
@@ -453,16 +474,39 @@ func genScenario(ch choose.Chooser, withWaits bool) scenario {
 		// signals: a drawn subset in a drawn order, with repetitions and unknown ids
 		order := choose.Perm(ch, "order", n)
 		k := n
-		if s < nSetups-1 || choose.Chance(ch, "partial", 35) {
+		partialPct := 35
+		if withWaits && otherTO {
+			partialPct = 75 // let a set-up made on such a rebuilt gate run into its timeout
+		}
+		if s < nSetups-1 || choose.Chance(ch, "partial", partialPct) {
 			k = ch.Int("subset", 0, n)
+			if withWaits && otherTO && s == nSetups-1 && k == n {
+				k = n - 1
+			}
 		}
 		rebuildAt := -1
-		if k > 0 && choose.Chance(ch, "rebuild", 25) {
+		rebuildPct := 25
+		if withWaits {
+			rebuildPct = 40
+		}
+		if k > 0 && choose.Chance(ch, "rebuild", rebuildPct) {
 			rebuildAt = ch.Int("rebuild.at", 0, k-1)
 		}
 		for i := 0; i < k; i++ {
 			if i == rebuildAt {
-				sc.Ops = append(sc.Ops, gop{Kind: "rebuild"})
+				op := gop{Kind: "rebuild"}
+				if choose.Chance(ch, "rebuild.savedto", 60) {
+					// the saved state carries another timeout than the configuration (saved under
+					// an older configuration, or without the field)
+					if sc.Timeout > 0 && choose.Chance(ch, "rebuild.savedto.zero", 40) {
+						op.SavedTO = 0
+					} else {
+						op.SavedTO = 3 - sc.Timeout // 1 <-> 2; 3 when no timeout is configured
+					}
+					op.HasSavedTO = true
+					otherTO = true
+				}
+				sc.Ops = append(sc.Ops, op)
 			}
 			if choose.Chance(ch, "unknown", 15) {
 				sc.Ops = append(sc.Ops, gop{Kind: "ready", ID: "stranger"})
